@@ -152,6 +152,12 @@ fn configure_gen(prop: &str, g: &mut Gen) {
                 g.allocator_ops_after = g.rng.range(10, 60);
             }
         }
+        "C18" | "C20" => {
+            if g.rng.chance(1, 8) {
+                let cap = g.target_pop.max(30);
+                g.many_groups_prelude(cap);
+            }
+        }
         "C10" => {
             g.boost_clone = 6;
             if g.rng.chance(1, 6) {
